@@ -98,6 +98,7 @@ def run_cells(shape: Shape, hist: List[Dict[str, Any]], root: str, env: Dict[str
             traceback.print_exc()
             code = 3
         finally:
+            common.cov_save()
             os._exit(code)
     os.close(w)
     with os.fdopen(r, "rb") as f:
